@@ -22,6 +22,7 @@
 #include <assert.h>
 #include <ctype.h>
 #include <errno.h>
+#include <limits.h>
 #include <stdbool.h>
 #include <stdio.h>
 #include <stdlib.h>
@@ -403,6 +404,34 @@ static int expect_nnint_arg(npd_scan_state_t *nssp, int *value)
 }
 
 /*
+ * NPD_MAX_PORTS: largest matrix dimension we accept; keeps the field
+ *   counts computed from it (2 * ports^2 per parameter) well within int
+ */
+#define NPD_MAX_PORTS	1024
+
+/*
+ * expect_dimension_arg: expect a single dimension argument
+ *   @nssp:  scanner state
+ *   @value: address to receive value
+ */
+static int expect_dimension_arg(npd_scan_state_t *nssp, int *value)
+{
+    vnadata_internal_t *vdip = nssp->nss_vdip;
+
+    if (expect_nnint_arg(nssp, value) == -1) {
+	return -1;
+    }
+    if (*value > NPD_MAX_PORTS) {
+	_vnadata_error(vdip, VNAERR_SYNTAX,
+		"%s (line %d) error: value after %s may not exceed %d",
+		nssp->nss_filename, nssp->nss_line,
+		FIELD(nssp, 0), NPD_MAX_PORTS);
+	return -1;
+    }
+    return 0;
+}
+
+/*
  * _vnadata_load_npd: load matrix data in libvna NPD format
  *   @vdp: a pointer to the vnadata_t structure
  *   @fp: file pointer
@@ -472,7 +501,7 @@ int _vnadata_load_npd(vnadata_internal_t *vdip, FILE *fp, const char *filename)
 			"redundant ports line", nss.nss_filename, nss.nss_line);
 		goto out;
 	    }
-	    if (expect_nnint_arg(&nss, &ports) == -1) {
+	    if (expect_dimension_arg(&nss, &ports) == -1) {
 		goto out;
 	    }
 	    if (scan_line(&nss) == -1) {
@@ -481,7 +510,7 @@ int _vnadata_load_npd(vnadata_internal_t *vdip, FILE *fp, const char *filename)
 	    continue;
 
 	case T_KROWS:
-	    if (expect_nnint_arg(&nss, &rows) == -1) {
+	    if (expect_dimension_arg(&nss, &rows) == -1) {
 		goto out;
 	    }
 	    if (scan_line(&nss) == -1) {
@@ -490,7 +519,7 @@ int _vnadata_load_npd(vnadata_internal_t *vdip, FILE *fp, const char *filename)
 	    continue;
 
 	case T_KCOLUMNS:
-	    if (expect_nnint_arg(&nss, &columns) == -1) {
+	    if (expect_dimension_arg(&nss, &columns) == -1) {
 		goto out;
 	    }
 	    if (scan_line(&nss) == -1) {
@@ -800,6 +829,12 @@ int _vnadata_load_npd(vnadata_internal_t *vdip, FILE *fp, const char *filename)
 	    best_drows = drows;
 	    best_dcolumns = dcolumns;
 	    best_field = n_fields;
+	}
+	if (fields > INT_MAX - n_fields) {
+	    _vnadata_error(vdip, VNAERR_SYNTAX, "%s (line %d) error: "
+		    "too many parameters",
+		    nss.nss_filename, parameter_line);
+	    goto out;
 	}
 	n_fields += fields;
     }
